@@ -863,38 +863,34 @@ Definition chk_R (t : tree) (q : list nat * N * owner) : bool :=
 Definition isnil {A} (l : list A) : bool := match l with [] => true | _ => false end.
 Definition flow_sensitive (fs : list frame) (x : N) : bool :=
   match rev fs with a :: _ => is_local cfg_fixed a x | [] => false end.
-Definition chk_I (e : env) (t : tree) (q : list nat * N * list owner) : bool :=
-  let '(p, x, obs) := q in
-  match chain t p with
-  | Some fs => shape_ok fs && nonlocal_ok fs x && in_domain fs x &&
-      (let pred := supp_owners cfg_fixed e fs x in
-       forallb (fun o => existsb (owner_eqb o) pred) obs &&
-       (flow_sensitive fs x || Bool.eqb (isnil obs) (isnil pred)))
-  | None => false
-  end.
-(* 0 both non-empty, 1 both empty, 2 flow-sensitive (not compared), 3 mismatch *)
-Definition exist_class (e : env) (t : tree) (q : list nat * N * list owner) : nat :=
+(* result: (agrees, existence class: 0 both non-empty, 1 both empty, 2 flow-sensitive (not compared), 3 mismatch) *)
+Definition eval_I (e : env) (t : tree) (q : list nat * N * list owner) : bool * nat :=
   let '(p, x, obs) := q in
   match chain t p with
   | Some fs =>
-      if flow_sensitive fs x then 2
-      else let pred := supp_owners cfg_fixed e fs x in
-           if Bool.eqb (isnil obs) (isnil pred) then (if isnil obs then 1 else 0) else 3
-  | None => 3
+      let pred := supp_owners cfg_fixed e fs x in
+      let cls := if flow_sensitive fs x then 2
+                 else if Bool.eqb (isnil obs) (isnil pred) then (if isnil obs then 1 else 0) else 3 in
+      (shape_ok fs && nonlocal_ok fs x && in_domain fs x &&
+       forallb (fun o => existsb (owner_eqb o) pred) obs && negb (Nat.eqb cls 3), cls)
+  | None => (false, 3)
   end.
+Definition chk_I (e : env) (t : tree) (q : list nat * N * list owner) : bool := fst (eval_I e t q).
 Definition env_fast (bi : list N) (t : tree) (n : nat) : env :=
   let gl := filter (tree_grouted t) (names_upto n) in Env (fun x => mem x bi) (fun x => mem x gl).
-Definition check_case (c : case_t) : bool :=
+Definition eval_case (c : case_t) : bool * list nat :=
   let '(t, bi, n, rq, iq) := c in
-  let e := env_fast bi t n in forallb (chk_R t) rq && forallb (chk_I e t) iq.
+  let e := env_fast bi t n in
+  let ri := map (eval_I e t) iq in
+  (forallb (chk_R t) rq && forallb fst ri, map snd ri).
 Definition bad_queries (c : case_t) : list nat * list nat :=
   let '(t, bi, n, rq, iq) := c in
   let e := env_fast bi t n in (bad_idx (chk_R t) rq, bad_idx (chk_I e t) iq).
 Definition count_class (k : nat) (l : list nat) : N := N.of_nat (List.length (filter (Nat.eqb k) l)).
-Definition exist_counts (cs : list case_t) : N * N * N * N :=
-  let cl := flat_map (fun c : case_t => let '(t, bi, n, rq, iq) := c in
-                        let e := env_fast bi t n in map (exist_class e t) iq) cs in
-  (count_class 0 cl, count_class 1 cl, count_class 2 cl, count_class 3 cl).
+Definition summary (cs : list case_t) : list nat * (N * N * N * N) :=
+  let res := map eval_case cs in
+  let cl := flat_map snd res in
+  (bad_idx fst res, (count_class 0 cl, count_class 1 cl, count_class 2 cl, count_class 3 cl)).
 '''
 
 KIND_TERM = {K_MODULE: 'KModule', K_FUNC: 'KFunction', K_LAMBDA: 'KLambda', K_CLASS: 'KClass'}
@@ -1012,14 +1008,25 @@ def coq_check(ctx, cases):
         groups.append(cur)
     for g in groups:
         pre = PRELUDE + '\nDefinition cases__ : list case_t := [\n%s].\n' % ';\n'.join(terms[i] for i in g)
-        jobs.append((['Model.Scopes'], pre, ['bad_idx check_case cases__', 'exist_counts cases__']))
+        jobs.append((['Model.Scopes'], pre, ['summary cases__']))
     res = ctx.coq_eval_many(jobs, timeout=900)
     failing = []
     ex = [0, 0, 0, 0]
     for g, r in zip(groups, res):
+        r = r[0]
         failing.extend(g[i] for i in r[0])
-        (a, b, c_), d = r[1][0], r[1][1]
-        for k, v in enumerate((a, b, c_, d)):
+        flat = []
+
+        def walk(v):
+            if isinstance(v, (tuple, list)):
+                for w in v:
+                    walk(w)
+            else:
+                flat.append(int(v))
+        walk(r[1])
+        if len(flat) != 4:
+            raise RuntimeError('exist_counts: unexpected value %r' % (r[1],))
+        for k, v in enumerate(flat):
             ex[k] += v
     ctx.coverage['existence'] = {
         'rule': 'per distinct (scope, name, observation) read: supp reports some binding exactly when supp_owners '
@@ -1093,10 +1100,10 @@ def run(ctx):
     sources = []
     for f, src in load_corpus():
         sources.append(('corpus:' + f, src, None))
-    gen = gen_modules(ctx, ctx.pick(250, 3000), stats)
+    gen = gen_modules(ctx, ctx.pick(220, 3000), stats)
     for i, src in enumerate(gen):
         sources.append(('gen:%d' % i, src, None))
-    files = stdlib_files(limit=ctx.pick(170, None), rng=ctx.rng, include_tests=ctx.thorough())
+    files = stdlib_files(limit=ctx.pick(140, None), rng=ctx.rng, include_tests=ctx.thorough())
     for fn in files:
         try:
             src = open(fn, encoding='utf8').read()
